@@ -38,12 +38,16 @@ pub struct Case {
     pub set: SetCase,
     pub ops: Vec<Op>,
     pub finals: Vec<Final>,
+    /// every sample is present twice under two names (then every k-mer is in >= 2 samples and
+    /// rows only disappear when the second twin is deleted)
+    #[serde(default)]
+    pub twins: bool,
 }
 
 fn op_strategy(k: usize) -> BoxedStrategy<Op> {
     prop_oneof![
         2 => (proptest::collection::vec(gen::sample_strategy(k), 1..3), any::<bool>()).prop_map(|(extra, first)| Op::Merge { extra, first }),
-        2 => (proptest::collection::vec(any::<bool>(), 1..6), any::<bool>()).prop_map(|(mask, names_file)| Op::Delete { mask, names_file }),
+        3 => (prop_oneof![1 => proptest::collection::vec(any::<bool>(), 1..6), 2 => proptest::collection::vec(prop::bool::weighted(0.2), 3..8)], any::<bool>()).prop_map(|(mask, names_file)| Op::Delete { mask, names_file }),
         2 => (proptest::collection::vec(gen::part_strategy(k), 1..3), prop::bool::weighted(0.15)).prop_map(|(parts, reverse)| Op::Weed { parts, reverse }),
         4 => gentle_flags().prop_map(|flags| Op::Filter { flags }),
     ]
@@ -83,9 +87,10 @@ fn case_strategy() -> BoxedStrategy<Case> {
                 gen::set_strategy_k(k, 2, 6),
                 proptest::collection::vec(op_strategy(k), 1..8),
                 proptest::collection::vec(final_strategy(), 3..=3),
+                prop::bool::weighted(0.3),
             )
         })
-        .prop_map(|(set, ops, finals)| Case { set, ops, finals })
+        .prop_map(|(set, ops, finals, twins)| Case { set, ops, finals, twins })
         .boxed()
 }
 
@@ -145,7 +150,11 @@ fn weed_filter_args(g: &Flags, n: usize) -> Vec<String> {
 }
 
 fn check(c: &Case, ctx: &Ctx) -> Outcome {
-    let (anc, samples) = gen::materialise_set(&c.set);
+    let (anc, mut samples) = gen::materialise_set(&c.set);
+    if c.twins {
+        let copies: Vec<Sample> = samples.iter().map(|(n, r)| (format!("{n}t"), r.clone())).collect();
+        samples.extend(copies);
+    }
     let (k, rc) = (c.set.k, c.set.rc);
     let dir = ctx.case_dir();
     let mut trace: Vec<String> = Vec::new();
@@ -372,12 +381,14 @@ fn check(c: &Case, ctx: &Ctx) -> Outcome {
             cl.sort();
             cl.dedup();
             if n_ops >= 4 { cl.push("ops>=4"); }
+            if c.twins { cl.push("twin_samples"); }
+            if kinds.iter().filter(|k| **k == "delete").count() >= 2 { cl.push(">=2_deletes"); }
             pass(interesting && n_ops >= 1 && !kinds.contains(&"ended_empty"), key_of(&(k, rc, &trace)), cl)
         }
     }
 }
 
-const RULE: &str = "stateful: start = ska build of 2-6 related samples (ambiguity from repeats); history of 1-7 ops from {merge with newly built samples (either argument order), delete subset (names on the command line or in a names file), weed by FASTA, reverse weed, weed-filter with generated filter/threshold/ambig-as-missing/ambig-mask/no-gap-only-sites}; after every op nk --full-info == table model; at the end a fresh file with the model's content is written through the public API and three generated commands (align, distance, delete, map aln/vcf, weed-filter, nk) must give identical results on both files, align/delete/weed-filter also equal to the model. weed thresholds only where n*f is an exact integer. Non-trivial: the history contains a merge, a delete or a filter with --filter-ambig-as-missing and does not end with an empty table; distinct by the trace.";
+const RULE: &str = "stateful: start = ska build of 2-6 related samples (ambiguity from repeats; in 30% of the cases every sample twice under two names, so that every k-mer is in >= 2 samples); history of 1-7 ops from {merge with newly built samples (either argument order), delete subset (names on the command line or in a names file), weed by FASTA, reverse weed, weed-filter with generated filter/threshold/ambig-as-missing/ambig-mask/no-gap-only-sites}; after every op nk --full-info == table model; at the end a fresh file with the model's content is written through the public API and three generated commands (align, distance, delete, map aln/vcf, weed-filter, nk) must give identical results on both files, align/delete/weed-filter also equal to the model. weed thresholds only where n*f is an exact integer. Non-trivial: the history contains a merge, a delete or a filter with --filter-ambig-as-missing and does not end with an empty table; distinct by the trace.";
 
 fn show(c: &Case) -> serde_json::Value {
     json!({"k": c.set.k, "two_strand": c.set.rc, "samples": c.set.samples.len(), "ops": c.ops.iter().map(|o| match o {
